@@ -2,6 +2,8 @@ LEVEL = "model_checking"
 HARNESSES = [
     # sequential half of C15: every single-threaded operation history, run to a fixpoint per ring size
     dict(name="ringseq", src=["ringseq.c"], variant="asan", deadline={"quick": 90, "thorough": 600}),
+    # rings of 2^31 .. 2^32+ bytes (address space only, interval oracle): every program of up to 5 operations
+    dict(name="ringbig", src=["ringbig.c"], variant="asan", deadline={"quick": 120, "thorough": 300}),
     # concurrent half: acquirer thread x releaser thread, every interleaving of the atomic loads/stores of head and tail
     dict(name="ringmt", src=["ringmt.c"], variant="sched", wrap=True, deadline={"quick": 150, "thorough": 1500}),
     # free-running ThreadSanitizer twin of the scenario bodies (DESIGN 4.5): no wrapping, OS scheduler, decides nothing;
